@@ -112,7 +112,7 @@ fn walk_inner(servers: &[Srv], order: &[usize], conc: usize, t_ms: u64, v: &Vari
         // every member of the batch starts at t
         let mut results: Vec<(u64, u8, usize, Out)> = vec![];
         for &s in &batch {
-            let mut tcp = udp_off_all || udp_off[s];
+            let mut tcp = udp_off_all || udp_off[s] || servers[s].no_udp;
             if !tcp && alive[s] != 0 && servers[s].tcp.is_some() {
                 let i = *choice_points;
                 *choice_points += 1;
@@ -176,6 +176,10 @@ fn attempt(
             *k += 1;
             match c {
                 ConnStep::Ok => alive[s] = 1,
+                ConnStep::OkAfter(l) => {
+                    now += l;
+                    alive[s] = 1;
+                }
                 ConnStep::Refused(l) | ConnStep::Timeout(l) => return (now + l, Out::Fail),
             }
         }
